@@ -42,6 +42,140 @@ func FuncKey(fn *types.Func) string {
 	return pk + "." + recv + "." + fn.Name()
 }
 
+// Signatures holds, per known function, its signature (package-qualified type string).
+var Signatures = map[string]string{}
+
+func sigString(fn *types.Func) string {
+	sig, ok := fn.Type().(*types.Signature)
+	if !ok {
+		return ""
+	}
+	q := func(p *types.Package) string { return p.Path() }
+	var ps, rs []string
+	for i := 0; i < sig.Params().Len(); i++ {
+		t := types.TypeString(sig.Params().At(i).Type(), q)
+		if sig.Variadic() && i == sig.Params().Len()-1 {
+			t = "..." + strings.TrimPrefix(t, "[]")
+		}
+		ps = append(ps, t)
+	}
+	for i := 0; i < sig.Results().Len(); i++ {
+		rs = append(rs, types.TypeString(sig.Results().At(i).Type(), q))
+	}
+	return "func(" + strings.Join(ps, ", ") + ") (" + strings.Join(rs, ", ") + ")"
+}
+
+func splitKey(k string) (pkg, recv, name string) {
+	i := strings.LastIndex(k, ".")
+	name = k[i+1:]
+	k = k[:i]
+	j := strings.LastIndex(k, ".")
+	return k[:j], k[j+1:], name
+}
+
+// RenameFuncs gives a function of the reference tree that was renamed its reference name back: a known function that
+// is missing from its package and an unknown function of the same package with the same receiver type and an identical
+// signature are taken to be the same function when the match is unique in both directions.
+func RenameFuncs(fset *token.FileSet, pkgs []*packages.Package, known map[string]bool, overlay map[string][]byte) *Result {
+	res := &Result{Overlay: map[string][]byte{}}
+	byPkg := map[string][]string{}
+	for k := range known {
+		pk, _, _ := splitKey(k)
+		byPkg[pk] = append(byPkg[pk], k)
+	}
+	type occ struct {
+		file       string
+		start, end int
+	}
+	edits := map[string][]edit{}
+	for _, pk := range pkgs {
+		if pk.TypesInfo == nil || len(pk.Errors) > 0 {
+			continue
+		}
+		declared := map[string]*types.Func{}
+		for _, f := range pk.Syntax {
+			for _, d := range f.Decls {
+				if fd, ok := d.(*ast.FuncDecl); ok {
+					if obj, ok := pk.TypesInfo.Defs[fd.Name].(*types.Func); ok {
+						declared[FuncKey(obj)] = obj
+					}
+				}
+			}
+		}
+		var missing []string
+		for _, k := range byPkg[pk.PkgPath] {
+			if declared[k] == nil {
+				missing = append(missing, k)
+			}
+		}
+		if len(missing) == 0 {
+			continue
+		}
+		for _, mk := range missing {
+			_, mrecv, mname := splitKey(mk)
+			if mname == "init" || mname == "_" {
+				continue
+			}
+			var cands []*types.Func
+			for k, obj := range declared {
+				if known[k] {
+					continue
+				}
+				_, r, _ := splitKey(k)
+				if r == mrecv && sigString(obj) == Signatures[mk] {
+					cands = append(cands, obj)
+				}
+			}
+			if len(cands) != 1 {
+				continue
+			}
+			// unique the other way round too
+			n := 0
+			for _, mk2 := range missing {
+				_, r2, _ := splitKey(mk2)
+				if r2 == mrecv && Signatures[mk2] == Signatures[mk] {
+					n++
+				}
+			}
+			if n != 1 {
+				continue
+			}
+			obj := cands[0]
+			// rename every identifier that denotes obj, in all loaded packages
+			for _, q := range pkgs {
+				if q.TypesInfo == nil {
+					continue
+				}
+				for id, o := range q.TypesInfo.Defs {
+					if o == types.Object(obj) {
+						name := fset.File(id.Pos()).Name()
+						edits[name] = append(edits[name], edit{fset.Position(id.Pos()).Offset, fset.Position(id.End()).Offset, mname})
+					}
+				}
+				for id, o := range q.TypesInfo.Uses {
+					if o == types.Object(obj) {
+						name := fset.File(id.Pos()).Name()
+						edits[name] = append(edits[name], edit{fset.Position(id.Pos()).Offset, fset.Position(id.End()).Offset, mname})
+					}
+				}
+			}
+			res.Inlined = append(res.Inlined, fmt.Sprintf("%s is taken to be the reference function %s (same receiver and signature, unique match) and analysed under that name", obj.Name(), mname))
+		}
+	}
+	for name, eds := range edits {
+		content, ok := overlay[name]
+		if !ok {
+			b, err := os.ReadFile(name)
+			if err != nil {
+				continue
+			}
+			content = b
+		}
+		res.Overlay[name] = []byte(applyEdits(string(content), 0, eds))
+	}
+	return res
+}
+
 // ParamNames holds, per known function, the reference names of receiver and parameters ("recv,p1,p2").
 var ParamNames = map[string]string{}
 
@@ -60,9 +194,11 @@ func LoadKnown(path string) (map[string]bool, error) {
 		if l == "" {
 			continue
 		}
-		k, names, _ := strings.Cut(l, "\t")
+		k, rest, _ := strings.Cut(l, "\t")
+		names, sig, _ := strings.Cut(rest, "\t")
 		out[k] = true
 		ParamNames[k] = names
+		Signatures[k] = sig
 	}
 	return out, sc.Err()
 }
@@ -201,7 +337,7 @@ func DeclaredFuncs(pkgs []*packages.Package) []string {
 			for _, d := range f.Decls {
 				if fd, ok := d.(*ast.FuncDecl); ok {
 					if obj, ok := pk.TypesInfo.Defs[fd.Name].(*types.Func); ok {
-						out = append(out, FuncKey(obj)+"\t"+namesString(fd))
+						out = append(out, FuncKey(obj)+"\t"+namesString(fd)+"\t"+sigString(obj))
 					}
 				}
 			}
